@@ -62,6 +62,9 @@ class TaskDef:
         self.ret: str = "int"
         self.body: Any = None  # node
         self.awaits: list[tuple[str, Any]] = []  # async only: (var, node) awaited in order
+        # "lets" feature: local variables holding a lazy expression that the body uses several
+        # times (the *same* expression object as a direct term and inside staged forms)
+        self.lets: list[tuple[str, Any]] = []
         self.is_async = False
         self.options: dict[str, Any] = {}  # decorator options (executor, limits, cache...)
         self.raises: Optional[tuple[str, str]] = None  # (error class name, message)
@@ -314,7 +317,28 @@ class Gen:
                 env = env + [(var, "int")]
             t.body = self.gen_expr(t.ret, env, t, 1)
             return
+        if self.has("lets") and self.ch.coin(0.45, "lets?"):
+            for k in range(1 + self.ch.choice(2, "nlets")):
+                var = f"x{k}"
+                node = self.gen_expr("int", env, t, 1)
+                if not is_lazy_top(node):
+                    node = ("applyf", "hsum", [node])
+                t.lets.append((var, node))
+                env = env + [(var, "int")]
         t.body = self.gen_expr(t.ret, env, t, 0)
+        if t.lets and t.ret == "int" and self.has("ops") and self.has("seq"):
+            # use the last variable as a direct term and again inside a staged form that is
+            # entered after something else finished
+            v = ("par", t.lets[-1][0])
+            first = ("par", t.lets[0][0]) if len(t.lets) > 1 else self.gen_arg("int", env, t, 1)
+            shape = self.ch.choice(3, "let-shape")
+            if shape == 0:
+                staged = ("idx", ("seq", [first, v, v]), 2)
+            elif shape == 1 and self.has("cond"):
+                staged = ("cond", first, ("cond", v, v, ("lit", 0)), v)
+            else:
+                staged = ("idx", ("list", [v, ("idx", ("seq", [first, v]), 1)]), 0)
+            t.body = ("op", "+", ("op", "+", v, t.body), staged)
         if not self.contains_call(t.body):
             # Make sure non-leaf tasks call something.
             callee = self.pick_callee(t, "int")
@@ -830,6 +854,8 @@ def task_src(prog: Program, t: TaskDef) -> str:
         lines.append(f"    raise {t.raises[0]}({t.raises[1]!r})")
     for var, node in t.awaits:
         lines.append(f"    {var} = await {expr_src(prog, node)}")
+    for var, node in t.lets:
+        lines.append(f"    {var} = {expr_src(prog, node)}")
     lines.append(f"    return {expr_src(prog, t.body)}")
     return "\n".join(lines) + "\n"
 
